@@ -366,7 +366,7 @@ def _kw_key(W, d, o):
 def _reduce_args(W, d, o):
     if not d.b[0]:
         return ()
-    return (None,) if d.b[2] else (d.initial,)  # None is a real initial value
+    return (None,) if d.b[1] else (d.initial,)  # None is a real initial value (flag b1 is free for reduce)
 
 
 _rega(Agg("all", lambda W, d, o: A.all(S(W, d, o, 0)), lambda W, d, o: builtins.all(S(W, d, o, 0))))
